@@ -60,6 +60,7 @@ type c02FaultCase struct {
 	Comp   string `json:"comp"` // "" | takeover | no-takeover
 	Prog   int    `json:"program"`
 	FailAt int    `json:"fail_at_transport_write"`
+	Prop   string `json:"prop,omitempty"` // "" = C02; "C05": frames stay atomic, received messages are written messages
 }
 
 type c02FaultOp struct {
@@ -143,13 +144,17 @@ func c02FaultOne(c *fw.Ctx, cs c02FaultCase) {
 	c.AddTraces(1)
 	log, sent, text, errs, _, pan := c02FaultRun(cs)
 	desc := fmt.Sprintf("%+v", cs)
+	P := "C02"
+	if cs.Prop != "" {
+		P = cs.Prop
+	}
 	if pan != "" {
-		c.Violate("C02/panic/fault", desc+": "+pan, cs)
+		c.Violate(P+"/panic/fault", desc+": "+pan, cs)
 		return
 	}
 	res := frame.Validate(log, frame.StreamRules{SenderIsClient: cs.Client, Deflate: cs.Comp != ""})
 	for _, v := range res.Violations {
-		c.Violate("C02/fault/wire/"+v.Rule, fmt.Sprintf("%s: after a transport write that failed half way the stream is no longer well-formed: %v", desc, v), cs)
+		c.Violate(P+"/fault/wire/"+v.Rule, fmt.Sprintf("%s: after a transport write that failed half way the stream is no longer well-formed: %v", desc, v), cs)
 		return
 	}
 	inf := &deflate.Inflater{NoContextTakeover: cs.Comp == "no-takeover"}
@@ -160,7 +165,7 @@ func c02FaultOne(c *fw.Ctx, cs c02FaultCase) {
 		if m.Compressed {
 			var err error
 			if pl, err = inf.Message(m.Payload); err != nil {
-				c.Violate("C02/fault/undecodable-message", fmt.Sprintf("%s: message %d on the wire does not inflate: %v", desc, mi, err), cs)
+				c.Violate(P+"/fault/undecodable-message", fmt.Sprintf("%s: message %d on the wire does not inflate: %v", desc, mi, err), cs)
 				return
 			}
 		}
@@ -172,7 +177,7 @@ func c02FaultOne(c *fw.Ctx, cs c02FaultCase) {
 			}
 		}
 		if found < 0 {
-			c.Violate("C02/fault/message-not-written", fmt.Sprintf("%s: complete message %d on the wire (%d bytes) is none of the messages written (in order): what follows a torn frame was read as part of it", desc, mi, len(pl)), cs)
+			c.Violate(P+"/fault/message-not-written", fmt.Sprintf("%s: complete message %d on the wire (%d bytes) is none of the messages written (in order): what follows a torn frame was read as part of it", desc, mi, len(pl)), cs)
 			return
 		}
 		seen[found] = true
@@ -181,7 +186,7 @@ func c02FaultOne(c *fw.Ctx, cs c02FaultCase) {
 	outc := ""
 	for j := range errs {
 		if errs[j] == nil && !seen[j] {
-			c.Violate("C02/fault/acked-write-missing", fmt.Sprintf("%s: the write of message %d returned nil but it is not completely on the wire (%d stray bytes at the end)", desc, j, len(res.Rest)), cs)
+			c.Violate(P+"/fault/acked-write-missing", fmt.Sprintf("%s: the write of message %d returned nil but it is not completely on the wire (%d stray bytes at the end)", desc, j, len(res.Rest)), cs)
 			return
 		}
 		outc += fmt.Sprintf("%v/%v ", errs[j] == nil, seen[j])
@@ -208,6 +213,29 @@ func c02FaultCases() []c02FaultCase {
 }
 
 func init() {
+	fw.Register(fw.Part{
+		Prop: "C05", Name: "fault",
+		Units: func(tier string) []fw.Unit {
+			return []fw.Unit{{ID: "short-write", Run: func(c *fw.Ctx) {
+				cases := c02FaultCases()
+				for _, cs := range cases {
+					cs.Prop = "C05"
+					c02FaultOne(c, cs)
+				}
+				c.AddStates(int64(len(cases)))
+				c.AddTransitions(int64(len(cases)))
+				c.Bound("fault_cases", len(cases))
+			}}}
+		},
+		Replay: func(c *fw.Ctx, data json.RawMessage) {
+			var cs c02FaultCase
+			if json.Unmarshal(data, &cs) != nil {
+				c.EngineError("bad replay data")
+				return
+			}
+			c02FaultOne(c, cs)
+		},
+	})
 	fw.Register(fw.Part{
 		Prop: "C02", Name: "fault",
 		Units: func(tier string) []fw.Unit {
